@@ -2394,6 +2394,81 @@ theorem collectGo_eq (items : Items) : ∀ pending, collectGo items pending = pe
     intro pending
     simp [collectGo, allOps, ihs, ihr, List.flatten_append]
 
+/-! ## Part 7: every logged wire event belongs to exactly one top-level context; wire events after an exit are `late` -/
+
+structure LC (s : St) : Prop where
+  wf : WF s
+  logChain : ∀ e ∈ s.log, ChainOK s e.chain
+
+theorem lc_init : LC init := ⟨wf_init, by intro e he; simp [init] at he⟩
+
+theorem lc_step {fx : Bool} {s s' : St} {e : CEv} (hi : LC s) (h : step fx s e = .ok s') : LC s' := by
+  have hext := step_ext h
+  refine ⟨wf_step hi.wf h, ?_⟩
+  have keep : ∀ e0 ∈ s.log, ChainOK s' e0.chain := fun e0 he0 => chainOK_ext hext (hi.logChain e0 he0)
+  cases e with
+  | client c => obtain ⟨_, rfl⟩ := step_client_ok h; exact keep
+  | spawn p c => obtain ⟨_, _, _, rfl⟩ := step_spawn_ok h; exact keep
+  | open_ τ c => obtain ⟨_, _, _, rfl⟩ := step_open_ok h; exact keep
+  | wireStart τ t =>
+    obtain ⟨tk, y, rest, ry, htk, _, _, _, rfl⟩ := wire_ok (b := true) h
+    intro e0 he0
+    rcases List.mem_append.mp he0 with he0 | he0
+    · exact keep e0 he0
+    · simp only [List.mem_singleton] at he0; subst he0
+      exact chainOK_ext hext (chainOK_task hi.wf htk)
+  | wireEnd τ t =>
+    obtain ⟨tk, y, rest, ry, htk, _, _, _, rfl⟩ := wire_ok (b := false) h
+    intro e0 he0
+    rcases List.mem_append.mp he0 with he0 | he0
+    · exact keep e0 he0
+    · simp only [List.mem_singleton] at he0; subst he0
+      exact chainOK_ext hext (chainOK_task hi.wf htk)
+  | close τ exc =>
+    obtain ⟨tk, c, rest, rc, _, _, _, _, hcase⟩ := step_close_ok h
+    rcases hcase with ⟨_, rfl⟩ | ⟨p, rest', rp, _, _, rfl⟩ <;> exact keep
+
+theorem lc_runFrom {fx : Bool} {evs : List CEv} {s s' : St} (hi : LC s) (h : runFrom fx s evs = .ok s') : LC s' := by
+  induction evs generalizing s with
+  | nil => simp only [runFrom, Except.ok.injEq] at h; subst h; exact hi
+  | cons e es ih =>
+    simp only [runFrom] at h
+    split at h
+    · rename_i s1 hs1; exact ih (lc_step hi hs1) h
+    · cases h
+
+/-- in a chain, a context without parent can only be the last element -/
+theorem chainOK_root_is_last {s : St} (hw : WF s) {l : List Nat} (h : ChainOK s l) {x : Nat} {rx : Rec}
+    (hx : x ∈ l) (hrx : s.ctxs x = some rx) (hp : rx.parent = none) : l.getLast? = some x := by
+  induction l with
+  | nil => cases hx
+  | cons y post ih =>
+    rcases List.mem_cons.mp hx with rfl | hx
+    · obtain ⟨ry, hry, hay⟩ := h.1
+      rw [hrx] at hry; cases hry
+      obtain ⟨rest0, h1, h2, _⟩ := hw.ancOk x rx hrx
+      rw [hay] at h1
+      simp only [List.cons.injEq, true_and] at h1
+      subst h1
+      rw [hp] at h2
+      cases post with
+      | nil => rfl
+      | cons q post' => simp at h2
+    · have := ih h.2 hx
+      cases post with
+      | nil => cases hx
+      | cons q post' => simpa [List.getLast?_cons_cons] using this
+
+theorem wire_after_exit_is_late_aux {fx : Bool} {s s' : St} {τ : Nat} {b : Bool} {t : Rat}
+    (h : wire fx s τ b t = .ok s') {tk : Task} (htk : s.tasks τ = some tk) {c : Nat} (hc : c ∈ tk.chain)
+    (hcl : isClosed s c = true) : s'.late = true := by
+  obtain ⟨tk', y, rest, ry, htk', _, _, _, rfl⟩ := wire_ok h
+  rw [htk] at htk'; cases htk'
+  have : anyClosed s tk.chain = true := by
+    simp only [anyClosed, List.any_eq_true]
+    exact ⟨c, hc, hcl⟩
+  simp [this]
+
 /-! ## evaluating observations on concrete runs (used by the witnesses in RallyProps/C18.lean) -/
 
 /-- evaluate a Boolean observation on the final state of a run -/
